@@ -155,6 +155,148 @@ theorem layout_refines_asm_scope_partial {num : Nat → Bytes → Nat} (hinj : N
             exact this
 
 
+/-! ### stage 2 as an instance -/
+
+theorem pubName_of_global {el : Element} {x : Bytes} (h : globalName el = some x) : pubName el = some x := by
+  simp only [pubName, h]
+
+theorem not_import_export_of_okGlob {el : Element} (h : okGlob el = true) : isImport el = false ∧ isExport el = false := by
+  obtain ⟨line, col, val⟩ := el
+  cases val with
+  | label n => exact ⟨rfl, rfl⟩
+  | instruction n a => exact ⟨rfl, rfl⟩
+  | directive name args =>
+    simp only [okGlob, Bool.not_eq_true', Bool.or_eq_false_iff, decide_eq_false_iff_not] at h
+    simp only [isImport, isExport, decide_eq_false_iff_not]
+    exact h
+
+theorem pubName_eq_of_okGlob {el : Element} (h : okGlob el = true) : pubName el = globalName el := by
+  unfold pubName
+  cases hg : globalName el with
+  | some x => rfl
+  | none => simp only [exportName_none (not_import_export_of_okGlob h).2]
+
+theorem filterMap_pubName_of_okGlob : ∀ (l : List Element), (∀ el ∈ l, okGlob el = true) →
+    l.filterMap pubName = l.filterMap globalName
+  | [], _ => rfl
+  | el :: l, h => by
+    simp only [List.filterMap_cons, pubName_eq_of_okGlob (h el List.mem_cons_self)]
+    rw [filterMap_pubName_of_okGlob l (fun x hx => h x (List.mem_cons_of_mem _ hx))]
+
+theorem newNames_sub_xNames (fs : Bytes → Option Bytes) (path : Bytes) (el : Element) :
+    ∀ x ∈ newNames fs path el, x ∈ xNames fs path el := by
+  intro x hx
+  simp only [newNames, List.mem_append] at hx
+  simp only [xNames, List.mem_append]
+  rcases hx with hx | hx
+  · refine .inl (.inl (.inl ?_))
+    cases hd : definedName el with
+    | none => rw [hd] at hx; cases hx
+    | some y => rw [hd] at hx; simpa using hx
+  · refine .inr ?_
+    unfold incNames at hx
+    unfold xincNames
+    split
+    · rename_i p' d' ht
+      rw [ht] at hx
+      simp only at hx ⊢
+      split
+      · rename_i els' pe hp
+        rw [hp] at hx
+        simp only [List.mem_filterMap] at hx ⊢
+        obtain ⟨e, he, hg⟩ := hx
+        exact ⟨e, he, pubName_of_global hg⟩
+      · rename_i r hp
+        rw [hp] at hx; cases hx
+    · rename_i ht
+      rw [ht] at hx; cases hx
+
+theorem elsOk_of_declOk (fs : Bytes → Option Bytes) (path : Bytes) (proj : List Bytes → Bytes → Bytes → Prop)
+    (avail : List Bytes) : ∀ (els : List Element) (seen seen' : List Bytes),
+      (∀ el ∈ els, okGlob el = true ∧ ∀ p' d', incTarget fs path el = some (p', d') → ∀ a, proj a p' d') →
+      declOk fs path seen els = true → (∀ x ∈ seen, x ∈ seen') → ElsOk fs path proj avail seen' els := by
+  intro els
+  induction els with
+  | nil => intro _ _ _ _ _; trivial
+  | cons el els ih =>
+    intro seen seen' hok hd hsub
+    simp only [declOk, Bool.and_eq_true] at hd
+    obtain ⟨h1, h2⟩ := hd
+    have hel := hok el List.mem_cons_self
+    refine ⟨fun hg => ?_, fun hm => ?_, fun p' d' ht => hel.2 p' d' ht _, ih _ _ (fun x hx => hok x (List.mem_cons_of_mem _ hx)) h2 ?_⟩
+    · rw [if_pos hg] at h1
+      cases hgn : globalName el with
+      | none => rw [hgn] at h1; cases h1
+      | some x => rw [hgn] at h1; exact ⟨x, rfl, hsub x (by simpa using h1)⟩
+    · rw [(not_import_export_of_okGlob hel.1).1] at hm; cases hm
+    · intro x hx
+      rcases List.mem_append.mp hx with hx | hx
+      · exact List.mem_append_left _ (newNames_sub_xNames fs path el x hx)
+      · exact List.mem_append_right _ (hsub x hx)
+
+/-- the side condition of stage 2 is an instance of the side condition of stage 3 (whatever the includer holds) -/
+theorem xferProject_of_global (fs : Bytes → Option Bytes) : ∀ (fuel : Nat) (avail : List Bytes) (path data : Bytes),
+    GlobalProject fs fuel path data → XferProject fs fuel avail path data := by
+  intro fuel
+  induction fuel with
+  | zero => intro _ _ _ _; trivial
+  | succ fuel ih =>
+    intro avail path data h els perr hp
+    obtain ⟨hd, hels⟩ := h els perr hp
+    exact elsOk_of_declOk fs path _ avail els [] [] (fun el hel => ⟨(hels el hel).1, fun p' d' ht a => ih a p' d' ((hels el hel).2 p' d' ht)⟩)
+      hd (fun _ hx => hx)
+
+/-- Stage 2 from stage 3: under the hypotheses of `layout_refines_asm_global_partial` (no `.import/.export`) the stage-3
+theorem applies, and the published names are the operands of the main file's `.global` statements. -/
+theorem layout_refines_asm_global_of_scope {num : Nat → Bytes → Nat} (hinj : NumInj num) (fs : Bytes → Option Bytes)
+    (main data : Bytes) (hfs : fs main = some data) (hglob : GlobalProject fs maxDepth main data) (o : Outcome)
+    (h : run fs main = .done o) (hs : o.success = true) :
+    ∃ (els : List Element) (perr : Option ParseErr) (p : List Layout.Stmt) (E : Layout.Env) (t : Table) (n : Nat)
+      (A : List (Bytes × Int)) (im' : Layout.Img),
+      parseFile data = .ok (els, perr) ∧
+      EnvRel (num 1) t E ∧ XFlat num fs encoder E 0 1 main t 2 none els p n ∧
+      A.map Prod.fst = els.filterMap globalName ∧ (∀ xv ∈ A, t.val xv.1 = some xv.2) ∧
+      EnvRel (num 0) (pub [] A) E ∧
+      Layout.Ref.pass2 none [] (p ++ aliases (num 0) (num 1) A) = some im' ∧ (∀ a, Map.abs o.image a = im'.get a) ∧
+      (Layout.NoLabelAtTop (p ++ aliases (num 0) (num 1) A) →
+        Layout.Ref.pass1 none [] (p ++ aliases (num 0) (num 1) A) = some E) := by
+  obtain ⟨els, perr, p, E, t, n, A, im', h1, h2, h3, h4, h5, h6, _, h8, h9, _, h11⟩ :=
+    layout_refines_asm_scope_partial hinj fs main data hfs (xferProject_of_global fs _ [] main data hglob) o h hs
+  refine ⟨els, perr, p, E, t, n, A, im', h1, h2, h3, ?_, h5, h6, h8, h9, h11⟩
+  rw [h4]
+  have hmd : maxDepth = 63 + 1 := rfl
+  rw [hmd] at hglob
+  obtain ⟨_, hels⟩ := hglob els perr h1
+  exact filterMap_pubName_of_okGlob els (fun el hel => (hels el hel).1)
+
+/-! ### visibility (C14, pipeline level): what the three scope directives do to the two tables -/
+
+/-- C14 (pipeline)  A `.import x` that succeeds without a diagnostic in a file whose includer's table (`globals` while the
+file is assembled) holds `x` valued: `x` was absent from the file's own table and now has the INCLUDER's value there;
+nothing else changes.  (DOWN: the only way a name of the includer becomes visible in the included file.) -/
+theorem import_binds_includer_value {fs : Bytes → Option Bytes} {enc : Encoder} {inc : Inc} {env : Env} {st st' : St}
+    {el : Element} (hg : isImport el = true) (h : statement fs enc inc env st el = .ok (st', .ok)) {t : Table}
+    (hl : st.locals = some t) (hnd : Table.NoDef t)
+    (hav : ∀ x, importName el = some x → ∃ v, st.globals.find x = some (some v)) :
+    ∃ x v, importName el = some x ∧ st.globals.find x = some (some v) ∧ t.find x = none ∧
+      st' = { st with locals := some (t.set x (some v)) } := Xfer.import_inv hg h hl hnd hav
+
+/-- C14 (pipeline)  A `.export x` that succeeds without a diagnostic: `x` is valued in the file's own table, was absent
+from the includer's table, and now has the FILE's value there; nothing else changes.  (UP.) -/
+theorem export_publishes_file_value {fs : Bytes → Option Bytes} {enc : Encoder} {inc : Inc} {env : Env} {st st' : St}
+    {el : Element} (hg : isExport el = true) (h : statement fs enc inc env st el = .ok (st', .ok)) {t : Table}
+    (hl : st.locals = some t) (hnd : Table.NoDef st.globals) :
+    ∃ x v, exportName el = some x ∧ t.find x = some (some v) ∧ st.globals.find x = none ∧
+      st' = { st with globals := st.globals.set x (some v) } := Xfer.export_inv hg h hl hnd
+
+/-- C14 (pipeline)  A `.global x` below the definition of `x` that succeeds without a diagnostic does the same through
+`defer_constant` + `insert_constant`. -/
+theorem global_publishes_file_value {fs : Bytes → Option Bytes} {enc : Encoder} {inc : Inc} {env : Env} {st st' : St}
+    {el : Element} (hg : isGlobal el = true) (h : statement fs enc inc env st el = .ok (st', .ok)) {t : Table}
+    (hl : st.locals = some t) (hfound : ∀ x, globalName el = some x → ∃ v, t.find x = some (some v)) :
+    ∃ x v, globalName el = some x ∧ t.find x = some (some v) ∧ st.globals.find x = none ∧
+      st' = { st with globals := pub1 st.globals x v } := Glob.global_inv hg h hl hfound
+
 /-! ### non-vacuity -/
 
 /-- a decidable form of `ElsOk` / `XferProject` -/
